@@ -14,8 +14,8 @@ M("esc-history-live-x", "main.py",
   "            mats = update_lbfgs_matrices(\n                x,\n                grad,\n                X,\n                G,\n                maxcor,\n                mats,\n                is_force_update=False,\n                eps=eps_SY,\n                is_check_factorization=is_check_factorization,\n            )\n\n            # callback",
   ["ESC"], also=[("main.py", XUPD, XUPD_INPLACE)], note="history stores the live iterate: all s become 0")
 M("esc-first-point-live", "main.py", "        X.append(np.copy(x))\n", "        X.append(x)\n", ["ESC"], also=[("main.py", XUPD, XUPD_INPLACE)])
-Q("esc-state-x-alias-but-rebinding", "main.py", "                        x=np.copy(x),\n", "                        x=x,\n", ["ESC"],
-  note="the iterate is rebound, never written in place: the old object is immutable history")
+M("esc-state-x-is-live-iterate", "main.py", "                        x=np.copy(x),\n", "                        x=x,\n", ["ESC"],
+  note="the solver never writes the old iterate in place, but a callback editing state.x would move the live iterate (round-2 clause)")
 Q("esc-copy-method", "main.py", "                        x=np.copy(x),\n", "                        x=x.copy(),\n", ["ESC", "SIB", "COH"])
 
 M("nitoff-pinned", "main.py", "                        nit=istate.nit + 1,\n", "                        nit=istate.nit,\n", ["NITOFF"], canary=True, note="pinned defect 7b")
@@ -51,13 +51,13 @@ M("coh-grad-smoothed", "main.py", "            if update_fun_def is None:\n     
 Q("coh-eval-into-temporaries", "main.py", "            f0, grad = sf.fun_and_grad(x)\n", "            f0 = sf.fun(x)\n            grad = sf.grad(x)\n", ["COH"])
 
 M("cnt-restore-swapped", "main.py", "        sf.ngev = checkpoint.njev\n", "        sf.ngev = checkpoint.nfev\n", ["CNT", "FIELDS"], canary=True)
-M("cnt-restore-after-first-eval", "main.py", "    if checkpoint is not None:\n        sf.nfev = checkpoint.nfev\n        sf.ngev = checkpoint.njev\n", "",
+M("cnt-restore-after-first-eval", "main.py", "        sf.nfev = checkpoint.nfev\n        sf.ngev = checkpoint.njev\n", "",
   ["CNT"], also=[("main.py", "    # potential update of stop criterion\n", "    if checkpoint is not None:\n        sf.nfev = checkpoint.nfev\n        sf.ngev = checkpoint.njev\n    else:\n        f0 = sf.fun(x)\n    # potential update of stop criterion\n")])
 M("cnt-counter-reset-in-linesearch", "linesearch.py", "    task = b\"START\"\n", "    task = b\"START\"\n    sf.ngev = sf.nfev\n", ["CNT"])
 M("fields-nit-not-restored", "main.py", "    if checkpoint is not None:\n        istate.nit = checkpoint.nit\n", "", ["FIELDS"], canary=True)
 M("fields-f0-recomputed", "main.py", "    if checkpoint is None:\n        f0 = sf.fun(x)\n    else:\n        f0 = checkpoint.fun\n", "    f0 = sf.fun(x)\n", ["FIELDS"])
-M("fields-result-lacks-nit", "main.py", "        nit=istate.nit,\n        status=istate.warnflag,\n        message=istate.task_str,\n        x=x,\n        success=istate.is_success,\n        hess_inv=LbfgsInvHessProduct(\n            np.atleast_2d(",
-  "        status=istate.warnflag,\n        message=istate.task_str,\n        x=x,\n        success=istate.is_success,\n        hess_inv=LbfgsInvHessProduct(\n            np.atleast_2d(", ["FIELDS", "RET"])
+M("fields-result-lacks-nit", "main.py", "        nit=istate.nit,\n        status=istate.warnflag,\n        message=istate.task_str,\n        x=x,\n        success=istate.is_success,\n        scaling_factor=sf.scaling_factor,\n        hess_inv=LbfgsInvHessProduct(\n            np.atleast_2d(",
+  "        status=istate.warnflag,\n        message=istate.task_str,\n        x=x,\n        success=istate.is_success,\n        scaling_factor=sf.scaling_factor,\n        hess_inv=LbfgsInvHessProduct(\n            np.atleast_2d(", ["FIELDS", "RET"])
 
 M("sib-early-exit-hands-on-checkpoint-operator", "main.py", "                hess_inv=LbfgsInvHessProduct(\n                    checkpoint.hess_inv.sk[-maxcor:], checkpoint.hess_inv.yk[-maxcor:]\n                ),\n",
   "                hess_inv=checkpoint.hess_inv,\n", ["SIB"], note="seeded change C18-b: more than maxcor pairs handed on")
